@@ -246,6 +246,9 @@ class ScoreToSimpleVotes:
                 )
             else:
                 cutoff = self.truncation
+            # both ends are trimmed: stop at the middle score(s), so that
+            # a candidate is never left without any score
+            cutoff = max(0, min(cutoff, (sum(scores.values()) - 1) // 2))
             sorted_scores = list(sorted(scores.keys()))
             _subtract_lowest(scores, sorted_scores, cutoff)
             _subtract_lowest(scores, sorted_scores[::-1], cutoff)
